@@ -97,6 +97,21 @@ func adversarial(t *rapid.T) string {
 	}
 	switch rapid.IntRange(0, 13).Draw(t, "shape") {
 	case 13: // a long (but acceptable) EQU value named many times by one operand, EQU value or FOR count
+		if rapid.IntRange(0, 3).Draw(t, "hugelit") == 0 {
+			// few tokens, many bytes: a literal of tens of thousands of digits named hundreds of times
+			digits := rapid.SampledFrom([]int{40000, 9000, 100000, 20000}).Draw(t, "digits")
+			refs := rapid.SampledFrom([]int{1000, 20, 300, 2000}).Draw(t, "hrefs")
+			base := "a equ 1" + strings.Repeat("0", digits) + "\n"
+			sum := "a" + strings.Repeat("+a", refs)
+			switch rapid.IntRange(0, 2).Draw(t, "huse") {
+			case 0:
+				return base + "dat " + sum + nl()
+			case 1:
+				return base + "for " + sum + "\ndat 0\nrof" + nl()
+			default:
+				return base + ";assert " + sum + "\ndat 0" + nl()
+			}
+		}
 		w := rapid.SampledFrom([]int{2047, 1000, 2040, 300}).Draw(t, "wide")
 		refs := rapid.SampledFrom([]int{600, 3, 50, 2000, 4000}).Draw(t, "refs")
 		base := "x equ 0" + strings.Repeat("+0", w) + "\n"
